@@ -1,4 +1,5 @@
 import CelmaVerif.Lemmas.SubGroupsValueList
+import CelmaVerif.Lemmas.SubGroupsFrame
 /-
   C06 at the level of the argument handler: WHICH destination a free value (a bare word) is given to.
   A multi-value destination ends up as the fold of exactly the values given to IT; the values are
@@ -15,12 +16,32 @@ import CelmaVerif.Lemmas.SubGroupsValueList
     (`assignValue`), otherwise to the positional argument (`findArg( mPosKey)`), otherwise it is
     refused (`unknown` ⇒ `iterateArguments` throws std::invalid_argument).
 
-  Helper lemmas and the concrete tree `vlCfg`: Lemmas/SubGroupsValueList.lean.
+  Helper lemmas and the concrete tree `vlCfg`: Lemmas/SubGroupsValueList.lean; frame of the sub-group
+  branch, `SubTakes`, `ValueRun`, `FreeWords`: Lemmas/SubGroupsFrame.lean.
+
+  What is a THEOREM about destinations and what is a LEMMA (audit3, weakness 4):
+  * theorems: `C06_subgroup_branch_frame`, `C06_loop_across_subgroup`,
+    `C06_values_subgroup_free_words`, `C06_values_subgroup_free_word_refused` (the element loop
+    from the values of `-v` over `-g …` to the free words), `C06_value_after_subgroup_refused`,
+    `C06_value_after_subgroup_positional` (frame of one value element), the `multi = true` half of
+    `C06_free_value_goes_to_last_multi`;
+  * lemmas about `lastArg` only (they say nothing about a destination; the end-to-end theorems use
+    them): `C06_subgroup_ends_value_list`, `C06_key_ends_value_list`, `C06_key_ends_value_list_tree`;
+  * definitional unfoldings of the model's `evalSingleArgument(T)`: `C06_free_value_after_subgroup`,
+    `C06_free_value_goes_to_last_multi_tree`, the `multi = false` half of
+    `C06_free_value_goes_to_last_multi`.
+  "iff" (a value element goes to the last argument iff that one is multi-value) is proved on the
+  PLAIN handler (`C06_free_value_goes_to_last_multi`, both halves); on trees only the multi-value case
+  (`…_tree`) and the no-last-argument case (`C06_free_value_after_subgroup`).
+  Outside: the callable argument of `Handler::addArgumentEndValues` (`Handler::endValueList()`,
+  handler.cpp:1114, which also resets `mpLastArg`) is not modelled.  For a PLAIN handler the
+  end-to-end statement from the words is `C02_parse_faithful` + `C01_accepted_destinations`.
 -/
 namespace CelmaVerif.Props.C06s
 open CelmaVerif CelmaVerif.Keys CelmaVerif.ProgArgs
 
-/-- **A sub-group argument ends the value list of the main handler.**  For every handler tree, every
+/-- LEMMA (`lastArg` only; no destination is mentioned — the frame is `C06_subgroup_branch_frame`).
+    **A sub-group argument ends the value list of the main handler.**  For every handler tree, every
     state (whatever its last argument is), every key that the two-container lookup resolves to a
     sub-group argument and every cursor: if `processArg` returns at all, the main handler has NO
     last argument afterwards (`mpLastArg == nullptr`) and the answer is `consumed`.  (Dropping
@@ -33,7 +54,10 @@ theorem C06_subgroup_ends_value_list (cfg : TCfg) (t t' : TState) (key : Key) (a
     t'.main.lastArg = none ∧ r = .consumed :=
   processArgT_sub_lastArg cfg t t' key ai ai' r j d hs hp
 
-/-- **A free value met without a last argument takes the positional route.**  For every tree, every
+/-- LEMMA (definitional unfolding of `evalSingleArgumentT`; the content "no `assignValue` on an
+    earlier argument" is the frame clause of `C06_value_after_subgroup_positional` and
+    `C06_values_subgroup_free_words`).
+    **A free value met without a last argument takes the positional route.**  For every tree, every
     state whose main handler has no last argument (in particular the state a sub-group argument
     leaves, `C06_subgroup_ends_value_list`) and every cursor on a value element,
     `evalSingleArgument` is exactly the positional branch of the main handler: look up the positional
@@ -102,7 +126,7 @@ theorem C06_value_after_subgroup_positional (cfg : TCfg) (t t' : TState) (key : 
   refine ⟨he, ?_⟩
   intro t'' av' r' hok
   rw [he] at hok
-  obtain ⟨h1, h2⟩ := liftMain_ok hok
+  obtain ⟨h1, h2⟩ := liftMain_ok_eq hok
   cases hh : handleIdentifiedArg cfg.main t'.main i p av.cur.val with
   | throw e => rw [hh] at h1; cases h1
   | oob w => rw [hh] at h1; cases h1
@@ -118,7 +142,10 @@ theorem C06_value_after_subgroup_positional (cfg : TCfg) (t t' : TState) (key : 
       rw [← e1]
       exact handleIdentifiedArg_args_other hh k hk
 
-/-- **Every key element ends the running value list** (plain handler).  For every handler, state,
+/-- LEMMA (`lastArg` and the answer only; a model that restores the old last argument after
+    `processArg` in the key branch of `evalSingleArgument` is excluded by the step theorems of C02,
+    not by this one).
+    **Every key element ends the running value list** (plain handler).  For every handler, state,
     key and cursor, if `processArg` returns:
     * the key designates argument `i` ⇒ `i` is the last argument afterwards and the answer is
       `consumed` — for EVERY value mode: also a flag (no value) and an optional-value argument used
@@ -135,7 +162,8 @@ theorem C06_key_ends_value_list (cfg : Cfg) (h h' : HState) (key : Key) (ai ai' 
   cases hp
   exact ⟨rfl, rfl, rfl⟩
 
-/-- **The last argument of the main handler after ANY key element of a handler tree.**  If
+/-- LEMMA (`lastArg` and the answer only).
+    **The last argument of the main handler after ANY key element of a handler tree.**  If
     `processArg` of a handler with sub-group arguments returns, the main handler's last argument is
     determined by what the key designates: a sub-group argument ⇒ none; the plain argument `i` ⇒
     `i`; nothing ⇒ none (answer `unknown`).  (The lookups cannot throw here: `processArg` would
@@ -159,7 +187,7 @@ theorem C06_key_ends_value_list_tree (cfg : TCfg) (t t' : TState) (key : Key) (a
     | none =>
       refine Or.inr ⟨rfl, ?_⟩
       rw [processArgT_plain cfg t key ai hs] at hp
-      obtain ⟨h1, _⟩ := liftMain_ok hp
+      obtain ⟨h1, _⟩ := liftMain_ok_eq hp
       obtain ⟨hA, hB⟩ := C06_key_ends_value_list cfg.main t.main t'.main key ai ai' r h1
       cases hf : findArg cfg.main.abbr cfg.main.table key with
       | throw e => unfold processArg at h1; rw [hf] at h1; cases h1
@@ -178,7 +206,8 @@ theorem C06_key_ends_value_list_tree (cfg : TCfg) (t t' : TState) (key : Key) (a
     element: `d.multi = true` ⇒ the element is `assignValue` on `i` with the word (no key is
     "identified": constraints are not run again), answer `consumed`, cursor unchanged, and `i` is
     still the last argument afterwards (the list goes on); `d.multi = false` ⇒ it is the positional
-    route, exactly as with no last argument. -/
+    route, exactly as with no last argument (this half is a definitional unfolding of
+    `evalSingleArgument`).  Both directions of the "iff" are proved here, on the plain handler only. -/
 theorem C06_free_value_goes_to_last_multi (cfg : Cfg) (h : HState) (av : It) (i : Nat) (d : ArgDef)
     (hv : av.cur.ty = .value) (hl : h.lastArg = some i) (hd : cfg.args[i]? = some d) :
     (d.multi = true →
@@ -207,7 +236,9 @@ theorem C06_free_value_goes_to_last_multi (cfg : Cfg) (h : HState) (av : It) (i 
     cases hok
     exact ⟨by rw [(assignValue_frame ha).2.1, hl], rfl, rfl, fun k hk => assignValue_args_other ha k hk⟩
 
-/-- the same on a handler tree: a value element met while the main handler's last argument `i` takes
+/-- LEMMA (definitional unfolding; on trees ONLY the multi-value direction — the other direction on a
+    tree is proved for `lastArg = none` only, `C06_free_value_after_subgroup`).
+    The same on a handler tree: a value element met while the main handler's last argument `i` takes
     multiple values is `assignValue` on `i` of the main handler (this is the state in which the words
     after a sub-group argument would be met if `mpLastArg` were not reset) -/
 theorem C06_free_value_goes_to_last_multi_tree (cfg : TCfg) (t : TState) (av : It) (i : Nat) (d : ArgDef)
@@ -219,6 +250,131 @@ theorem C06_free_value_goes_to_last_multi_tree (cfg : TCfg) (t : TState) (av : I
   rw [hv]
   dsimp only
   rw [evalSingleArgument_value_multi cfg.main t.main av (Or.inl hv) i d hl hd hm]
+
+/-! ### the frame of the sub-group branch and the loop across it (audit3, weakness 4)
+
+    The theorems above speak about the state AFTER the sub-group branch only.  The three below close
+    the gap: what the branch leaves alone, which cursor it hands back, and the element loop from the
+    values of a multi-value argument over the sub-group argument to the free words behind it.  A
+    model whose sub-group branch gives the handed-back words to the earlier multi-value argument,
+    steps over them and then clears the last argument satisfies every theorem above and violates
+    `C06_subgroup_branch_frame` (the main handler's `args` differ) and
+    `C06_values_subgroup_free_words` (the vector is not the fold of the values before `-g`). -/
+
+/-- **FRAME of the sub-group branch of `processArg`.**  For every tree, every state (whatever the
+    last argument is), every key the two-container lookup resolves to the sub-group argument `(j, d)`
+    and every cursor: if `processArg` returns, then
+    * `t'.main.args = t.main.args`: every destination and every cardinality counter of the MAIN
+      handler is what it was before the call (nothing is appended to the multi-value argument used
+      before; the sub-group argument's own counter lives in `subArgs`);
+    * the main handler has no last argument, the answer is `consumed`, the use log and the read mode
+      are unchanged;
+    * of the sub handlers only number `j` is written, with the state in which a `SubTakes` run of
+      `d.sub` over the elements after the key ends;
+    * the cursor handed back, `ai'`, is the one whose successor `stop` is the FIRST element the sub
+      handler did not consume: either the end, or an element to which the sub handler (in some state
+      `sh0`, ending in `sh`) answered something else than `consumed`.  The caller's `++ai` therefore
+      meets exactly that element. -/
+theorem C06_subgroup_branch_frame (cfg : TCfg) (t t' : TState) (key : Key) (ai ai' : It) (r : ArgResult)
+    (j : Nat) (d : SubDef)
+    (hs : findSub cfg.main.abbr cfg.subTable cfg.main.table key = .ok (some (j, d)))
+    (hp : processArgT cfg t key ai = .ok (t', ai', r)) :
+    t'.main.args = t.main.args ∧ t'.main.lastArg = none ∧ r = .consumed ∧
+    t'.main.uses = t.main.uses ∧ t'.main.fromSrc = t.main.fromSrc ∧
+    ∃ s sh stop, ai.step = .ok s ∧ SubTakes d.sub (t.subs.getD j default) ai s sh ai' stop ∧
+      ai'.step = .ok stop ∧ t'.subs = t.subs.set j sh ∧
+      (stop.atEnd = true ∨ (stop.atEnd = false ∧
+        ∃ sh0 sa r', evalSingleArgument d.sub sh0 stop = .ok (sh, sa, r') ∧ r' ≠ .consumed)) := by
+  obtain ⟨a, b, c, e, f, s, sh, stop, g1, g2, g3, g4⟩ := processArgT_sub_frame cfg t t' key ai ai' r j d hs hp
+  exact ⟨a, b, c, e, f, s, sh, stop, g1, g2, g3, g4, g2.stop_not_consumed⟩
+
+/-- **The element loop across a sub-group argument.**  If the loop, standing on a key element that
+    designates the sub-group argument `(j, d)`, returns `tf`, then the sub-group branch returned some
+    `(t', ai')` with the frame of `C06_subgroup_branch_frame`, and `tf` is what the loop returns
+    from `t'` on the element `stop` — the first element the sub handler did not consume.  (This is
+    the statement "the loop meets the next word in the state the branch left".) -/
+theorem C06_loop_across_subgroup (cfg : TCfg) (t tf : TState) (key : Key) (ai : It) (fuel : Nat)
+    (j : Nat) (d : SubDef) (hne : ai.atEnd = false) (hk : IsKeyElem ai key)
+    (hs : findSub cfg.main.abbr cfg.subTable cfg.main.table key = .ok (some (j, d)))
+    (hrun : iterateLoopT cfg (fuel + 1) t ai = .ok tf) :
+    ∃ t' ai' s sh stop, processArgT cfg t key ai = .ok (t', ai', .consumed) ∧
+      t'.main.args = t.main.args ∧ t'.main.lastArg = none ∧
+      ai.step = .ok s ∧ SubTakes d.sub (t.subs.getD j default) ai s sh ai' stop ∧ ai'.step = .ok stop ∧
+      t'.subs = t.subs.set j sh ∧ iterateLoopT cfg fuel t' stop = .ok tf := by
+  have hev := evalSingleArgumentT_key cfg t ai key hk
+  cases hp : processArgT cfg t key ai with
+  | throw e => unfold iterateLoopT at hrun; rw [hne, hev, hp] at hrun; cases hrun
+  | oob w => unfold iterateLoopT at hrun; rw [hne, hev, hp] at hrun; cases hrun
+  | ok x =>
+    obtain ⟨t', ai', r⟩ := x
+    obtain ⟨a, b, c, _, _, s, sh, stop, g1, g2, g3, g4⟩ := processArgT_sub_frame cfg t t' key ai ai' r j d hs hp
+    subst c
+    rw [iterateLoopT_consumed cfg fuel t t' ai ai' stop hne (hev.trans hp) g3] at hrun
+    exact ⟨t', ai', s, sh, stop, rfl, a, b, g1, g2, g3, g4, hrun⟩
+
+/-- **END TO END over the loop: values of a multi-value argument, a sub-group argument, free words**
+    (`-v 1 2 -g -x 5 7 8`).  Any tree with a positional argument `p`; the main handler's last
+    argument `i` takes multiple values (the state the key `-v` leaves); from the cursor `av` the
+    value elements `vs` follow (`ValueRun`), then the key element `ag` that designates the sub-group
+    argument `(j, d)`.  If the element loop returns `tf`, then
+    * the values `vs` were given to `i` (`multiFold`, state `h1`);
+    * the sub handler consumed the elements of a `SubTakes` run and handed back the cursor before
+      `stop` (`C06_subgroup_branch_frame`);
+    * and for every list `ws` of free words that make up the rest of the argument list from `stop`
+      on: `tf.main` is the fold of `ws` into the POSITIONAL argument, started from a state `h2` with
+      exactly the argument states of `h1` and no last argument; hence every argument `k ≠ p` of the
+      main handler — the vector `i` in particular — holds in `tf` exactly what it held after the
+      values given BEFORE the sub-group argument, and only sub handler `j` changed. -/
+theorem C06_values_subgroup_free_words (cfg : TCfg) (i : Nat) (dv : ArgDef) (p : Nat) (pd : ArgDef)
+    (key : Key) (j : Nat) (d : SubDef) (t tf : TState) (av ag : It) (vs : List Word) (fuel : Nat)
+    (hd : cfg.main.args[i]? = some dv) (hm : dv.multi = true) (hl : t.main.lastArg = some i)
+    (hvs : ValueRun av vs ag) (hne : ag.atEnd = false) (hk : IsKeyElem ag key)
+    (hs : findSub cfg.main.abbr cfg.subTable cfg.main.table key = .ok (some (j, d)))
+    (hpos : findArg cfg.main.abbr cfg.main.table Key.pos = .ok (some (p, pd)))
+    (hrun : iterateLoopT cfg (fuel + 1 + vs.length) t av = .ok tf) :
+    ∃ h1 h2 s sh ag' stop,
+      multiFold i dv vs t.main = .ok h1 ∧
+      ag.step = .ok s ∧ SubTakes d.sub (t.subs.getD j default) ag s sh ag' stop ∧ ag'.step = .ok stop ∧
+      h2.args = h1.args ∧ h2.lastArg = none ∧
+      ∀ ws, FreeWords stop ws →
+        positionalFold cfg.main p pd ws h2 = .ok tf.main ∧
+        (∀ k, k ≠ p → tf.main.args[k]? = h1.args[k]?) ∧
+        tf.main.lastArg = none ∧ tf.subs = t.subs.set j sh := by
+  obtain ⟨h1, hf, hrun1⟩ := iterateLoopT_value_run cfg i dv hd hm vs (fuel + 1) t tf av ag hl hvs hrun
+  obtain ⟨t', ag', s, sh, stop, _, a, b, g1, g2, g3, g4, hrun2⟩ :=
+    C06_loop_across_subgroup cfg { t with main := h1 } tf key ag fuel j d hne hk hs hrun1
+  refine ⟨h1, t'.main, s, sh, ag', stop, hf, g1, g2, g3, a, b, ?_⟩
+  intro ws hws
+  obtain ⟨c1, c2⟩ := iterateLoopT_free_words cfg p pd hpos fuel t' tf stop ws b hws hrun2
+  obtain ⟨e1, e2⟩ := positionalFold_frame ws c1
+  refine ⟨c1, fun k hk' => ?_, by rw [e1, b], ?_⟩
+  · rw [e2 k hk']
+    show t'.main.args[k]? = h1.args[k]?
+    rw [a]
+  · rw [c2]
+    exact g4
+
+/-- **… and without positional argument the first free word behind the sub-group argument's words is
+    refused.**  Same shape; the multi-value argument accepts `vs` (state `h1`), the sub-group branch
+    returns `(t', ag')`, the element after `ag'` is a value element and no positional argument is
+    defined: the element loop throws std::invalid_argument (it does NOT append the word to `i`). -/
+theorem C06_values_subgroup_free_word_refused (cfg : TCfg) (i : Nat) (dv : ArgDef)
+    (key : Key) (j : Nat) (d : SubDef) (t t' : TState) (h1 : HState) (av ag ag' stop : It) (r : ArgResult)
+    (vs : List Word) (fuel : Nat)
+    (hd : cfg.main.args[i]? = some dv) (hm : dv.multi = true) (hl : t.main.lastArg = some i)
+    (hvs : ValueRun av vs ag) (hne : ag.atEnd = false) (hk : IsKeyElem ag key)
+    (hs : findSub cfg.main.abbr cfg.subTable cfg.main.table key = .ok (some (j, d)))
+    (hpos : findArg cfg.main.abbr cfg.main.table Key.pos = .ok none)
+    (hf : multiFold i dv vs t.main = .ok h1)
+    (hp : processArgT cfg { t with main := h1 } key ag = .ok (t', ag', r))
+    (hst : ag'.step = .ok stop) (hsne : stop.atEnd = false) (hsv : stop.cur.ty = .value) :
+    iterateLoopT cfg (fuel + 2 + vs.length) t av = .throw .invalid_argument := by
+  rw [iterateLoopT_value_run_eq cfg i dv hd hm vs (fuel + 2) t h1 av ag hl hvs hf]
+  obtain ⟨_, b, c, _⟩ := processArgT_sub_frame cfg _ t' key ag ag' r j d hs hp
+  subst c
+  rw [iterateLoopT_consumed cfg (fuel + 1) _ t' ag ag' stop hne
+    ((evalSingleArgumentT_key cfg _ ag key hk).trans hp) hst]
+  exact iterateLoopT_free_word_refused cfg fuel t' stop b hsne hsv hpos
 
 /-! ### non-vacuity: the tree `vlCfg` — main `-v` (multi-value list), `-f` (flag), optionally a
     positional list; sub-group `-g` with `-x` (int) and `-q` (flag).  View: main destinations
@@ -282,5 +438,60 @@ example : vlStepView (It.begin (sgArgv ["7"]) >>= fun ai =>
     some ([.vec [], .flag false, .vec [7]], none, .consumed) := by decide +kernel
 example : ∃ d, findArg (vlMain true).abbr (vlMain true).table Key.pos = .ok (some (2, d)) := ⟨_, rfl⟩
 example : findArg (vlMain false).abbr (vlMain false).table Key.pos = .ok none := rfl
+
+/-! ### `C06_values_subgroup_free_words` / `…_free_word_refused` instantiated on `-v 1 2 -g -x 5 7 8`
+    (cursors, states and the hypotheses one by one: `Lemmas/SubGroupsFrame.lean`) -/
+
+/-- all hypotheses of the end-to-end theorem hold on the witness; its conclusion for the run -/
+theorem C06_values_subgroup_free_words_witness : ∃ h1 h2 s sh ag' stop,
+    multiFold 0 vlDefV [(vlCur2 true).cur.val] (vlAfterV true).1.main = .ok h1 ∧
+    (vlCurG true).step = .ok s ∧ SubTakes vlSub ((vlAfterV true).1.subs.getD 0 default) (vlCurG true) s sh ag' stop ∧
+    ag'.step = .ok stop ∧ h2.args = h1.args ∧ h2.lastArg = none ∧
+    ∀ ws, FreeWords stop ws →
+      positionalFold (vlMain true) 2 vlDefPos ws h2 = .ok (vlLoopFrom2 true).main ∧
+      (∀ k, k ≠ 2 → (vlLoopFrom2 true).main.args[k]? = h1.args[k]?) ∧
+      (vlLoopFrom2 true).main.lastArg = none ∧ (vlLoopFrom2 true).subs = (vlAfterV true).1.subs.set 0 sh :=
+  C06_values_subgroup_free_words (vlCfg true) 0 vlDefV 2 vlDefPos ⟨some 'g', []⟩ 0 vlSubDef (vlAfterV true).1
+    (vlLoopFrom2 true) (vlCur2 true) (vlCurG true) [(vlCur2 true).cur.val] 18 (vl_hd true) rfl (vl_hl true)
+    (vl_value_run true) (vl_gne true) (vl_key_elem true) (vl_hs true) vl_hpos_t vl_run_t
+
+/-- … and the inner statement of that witness is not vacuous: the sub handler's run IS determined
+    (`SubTakes.functional`) — on the witness it takes `-x 5` and stops at `7` (`vl_subTakes`) — and
+    from `7` on the free words `7`, `8` follow (`vl_freeWords`).  So for THIS run: the main handler's
+    final state is the fold of `7`, `8` into the positional argument from a state with the argument
+    states left by `-v 1 2`, and every other argument — the vector `-v` — is as `-v 1 2` left it. -/
+theorem C06_values_subgroup_free_words_witness_run :
+    ∃ h2, h2.args = (vlMainAfterValues true).args ∧ h2.lastArg = none ∧
+      positionalFold (vlMain true) 2 vlDefPos [(vlCur7' true).cur.val, (vlCur8 true).cur.val] h2 =
+        .ok (vlLoopFrom2 true).main ∧
+      (∀ k, k ≠ 2 → (vlLoopFrom2 true).main.args[k]? = (vlMainAfterValues true).args[k]?) ∧
+      (vlLoopFrom2 true).subs = (vlAfterV true).1.subs.set 0 (vlSubAt7 true).1 := by
+  obtain ⟨h1, h2, s, sh, ag', stop, hf, g1, g2, _, a, b, H⟩ := C06_values_subgroup_free_words_witness
+  have e1 : h1 = vlMainAfterValues true := by
+    have := hf.symm.trans (vl_hf true)
+    cases this; rfl
+  have e2 : s = vlCurX true := by
+    have := g1.symm.trans (vl_stepG true)
+    cases this; rfl
+  subst e1 e2
+  obtain ⟨e3, _, e5⟩ := g2.functional (vl_subTakes true)
+  subst e3 e5
+  obtain ⟨c1, c2, _, c4⟩ := H _ (vl_freeWords true)
+  exact ⟨h2, a, b, c1, c2, c4⟩
+
+-- … and what that run leaves: `-v` holds `[1, 2]`, the positional list `[7, 8]`, `-x` is 5
+example : (vlLoopFrom2 true).main.args.map (·.dest) = [.vec [1, 2], .flag false, .vec [7, 8]] ∧
+    (vlLoopFrom2 true).subs.map (fun h => h.args.map (·.dest)) = [[.int 5, .flag false]] := by decide +kernel
+
+/-- the same words on the tree without positional argument: every hypothesis of the refusal theorem
+    holds, the loop throws std::invalid_argument at `7` -/
+theorem C06_values_subgroup_free_word_refused_witness :
+    iterateLoopT (vlCfg false) (18 + 2 + [(vlCur2 false).cur.val].length) (vlAfterV false).1 (vlCur2 false) =
+      .throw .invalid_argument :=
+  C06_values_subgroup_free_word_refused (vlCfg false) 0 vlDefV ⟨some 'g', []⟩ 0 vlSubDef (vlAfterV false).1
+    (vlAfterG false).1 (vlMainAfterValues false) (vlCur2 false) (vlCurG false) (vlAfterG false).2.1 (vlCur7 false)
+    (vlAfterG false).2.2 [(vlCur2 false).cur.val] 18 (vl_hd false) rfl (vl_hl false) (vl_value_run false)
+    (vl_gne false) (vl_key_elem false) (vl_hs false) vl_hpos_f (vl_hf false) (vl_hp false) (vl_hst false)
+    (vl_7 false).1 (vl_7 false).2
 
 end CelmaVerif.Props.C06s
